@@ -171,6 +171,10 @@ void jls_rd_close(struct jls_rd_s * self) {
         if (NULL != core->raw) {
             for (size_t i = 0; i < JLS_SIGNAL_COUNT; ++i) {
                 struct jls_core_signal_s *signal_info = &core->signal_info[i];
+                if ((NULL != signal_info->track_fsr) && (NULL != signal_info->track_fsr->tmap)) {
+                    jls_tmap_free(signal_info->track_fsr->tmap);  // allocated by utc_load
+                    signal_info->track_fsr->tmap = NULL;
+                }
                 jls_fsr_close(signal_info->track_fsr);
             }
             jls_raw_close(core->raw);
